@@ -23,11 +23,14 @@
 (***************************************************************************)
 EXTENDS Naturals, Integers, Sequences, FiniteSets, TLC
 
-CONSTANTS N, NSig, MaxOps, DeepLock, MixinsUpdate
+CONSTANTS N, NSig, MaxOps, DeepLock, MixinsUpdate,
+          BadSig,        \* a signature whose method cannot be built (0: none): every build of an overlay holding it fails
+          UnlockOnFail   \* TRUE: a failed build gives back the locks it put on its parents (the repaired code)
 
-VARIABLES exists, mix, lb, own, locked, compiled, built, nm, nops, last
-vars == <<exists, mix, lb, own, locked, compiled, built, nm, nops, last>>
-view == <<exists, mix, lb, own, locked, compiled, built>>
+VARIABLES exists, mix, lb, own, locked, compiled, built, nm, nops, last,
+          used           \* history: the node has been built successfully at some time (came into use)
+vars == <<exists, mix, lb, own, locked, compiled, built, nm, nops, last, used>>
+view == <<exists, mix, lb, own, locked, compiled, built, used>>
 
 Nodes == 1..N
 RangeS(s) == {s[i] : i \in DOMAIN s}
@@ -62,6 +65,7 @@ Init ==
   /\ locked = [n \in Nodes |-> FALSE]
   /\ compiled = [n \in Nodes |-> FALSE]
   /\ built = [n \in Nodes |-> Empty]
+  /\ used = [n \in Nodes |-> FALSE]
   /\ nm = 0 /\ nops = 0
   /\ last = [op |-> "init"]
 
@@ -102,21 +106,30 @@ Create(n, ps, l) ==
   /\ mix' = [mix EXCEPT ![n] = ps]
   /\ lb' = [lb EXCEPT ![n] = l]
   /\ last' = [op |-> "create", n |-> n, mixins |-> ps, linkback |-> l, out |-> "ok"]
-  /\ UNCHANGED <<own, locked, compiled, built, nm>>
+  /\ UNCHANGED <<own, locked, compiled, built, nm, used>>
+
+(* an overlay that holds the unbuildable signature cannot be built *)
+Buildable(e) == \A kk \in DOMAIN e : kk[1] # BadSig
+
+(* _update(): every node of S is rebuilt from the new overlay; one that cannot be built goes back to its unbuilt     *)
+(* state (it reports the problem again when it is called) while the others are still rebuilt                         *)
+Rebuilt(mx, ow, S) == {kk \in S : Buildable(EffOf(mx, ow, kk))}
 
 AddMixins(n, p) ==
   /\ exists[n] /\ exists[p] /\ p < n /\ p \notin RangeS(mix[n])
   /\ IF locked[n]
      THEN /\ last' = [op |-> "add_mixins", n |-> n, mixins |-> <<p>>, out |-> "refused"]
-          /\ UNCHANGED <<exists, mix, lb, own, locked, compiled, built, nm>>
+          /\ UNCHANGED <<exists, mix, lb, own, locked, compiled, built, nm, used>>
      ELSE /\ mix' = [mix EXCEPT ![n] = Append(@, p)]
-          /\ last' = [op |-> "add_mixins", n |-> n, mixins |-> <<p>>, out |-> "ok"]
           /\ IF MixinsUpdate
-             THEN LET S == UpdSet(mix', n) IN
-                  /\ built' = [k \in Nodes |-> IF k \in S THEN EffOf(mix', own, k) ELSE built[k]]
-                  /\ locked' = LockAll(mix', locked, S)
-             ELSE UNCHANGED <<built, locked>>
-          /\ UNCHANGED <<exists, lb, own, compiled, nm>>
+             THEN LET S == UpdSet(mix', n)  R == Rebuilt(mix', own, S) IN
+                  /\ built' = [k \in Nodes |-> IF k \in R THEN EffOf(mix', own, k) ELSE built[k]]
+                  /\ compiled' = [k \in Nodes |-> IF k \in S \ R THEN FALSE ELSE compiled[k]]
+                  /\ locked' = LockAll(mix', locked, R)
+                  /\ last' = [op |-> "add_mixins", n |-> n, mixins |-> <<p>>, out |-> IF S = R THEN "ok" ELSE "config"]
+             ELSE /\ UNCHANGED <<built, locked, compiled>>
+                  /\ last' = [op |-> "add_mixins", n |-> n, mixins |-> <<p>>, out |-> "ok"]
+          /\ UNCHANGED <<exists, lb, own, nm, used>>
 
 (* own-table update of register: push down the chain of the same signature *)
 RECURSIVE PushDown(_, _, _, _)
@@ -128,13 +141,15 @@ PushDown(t, s, r, m) ==
 Modify(n, newown, rec) ==
   IF locked[n]
   THEN /\ last' = [rec EXCEPT !.out = "refused"]
-       /\ UNCHANGED <<exists, mix, lb, own, locked, compiled, built, nm>>
+       /\ UNCHANGED <<exists, mix, lb, own, locked, compiled, built, nm, used>>
   ELSE /\ own' = [own EXCEPT ![n] = newown]
-       /\ LET S == UpdSet(mix, n) IN
-          /\ built' = [k \in Nodes |-> IF k \in S THEN EffOf(mix, own', k) ELSE built[k]]
-          /\ locked' = LockAll(mix, locked, S)
-       /\ last' = rec
-       /\ UNCHANGED <<exists, mix, lb, compiled>>
+       /\ LET S == UpdSet(mix, n)  R == Rebuilt(mix, own', S) IN
+          /\ built' = [k \in Nodes |-> IF k \in R THEN EffOf(mix, own', k) ELSE built[k]]
+          /\ compiled' = [k \in Nodes |-> IF k \in S \ R THEN FALSE ELSE compiled[k]]
+          /\ locked' = LockAll(mix, locked, R)
+          \* the change itself stays (the method is registered / gone); the error of the failing rebuilds is reported
+          /\ last' = IF S = R THEN rec ELSE [rec EXCEPT !.out = "config"]
+       /\ UNCHANGED <<exists, mix, lb, used>>
 
 Register(n, s) ==
   /\ exists[n]
@@ -159,11 +174,18 @@ Unregister(n, m) ==
 Use(n) ==
   /\ exists[n] /\ Eff(n) # Empty
   /\ IF compiled[n]
-     THEN UNCHANGED <<compiled, built, locked>>
-     ELSE /\ compiled' = [compiled EXCEPT ![n] = TRUE]
+     THEN /\ UNCHANGED <<compiled, built, locked, used>>
+          /\ last' = [op |-> "use", n |-> n, out |-> "ok"]
+     ELSE IF Buildable(Eff(n))
+     THEN /\ compiled' = [compiled EXCEPT ![n] = TRUE]
           /\ built' = [built EXCEPT ![n] = Eff(n)]
           /\ locked' = LockParents(mix, locked, n)
-  /\ last' = [op |-> "use", n |-> n, out |-> "ok"]
+          /\ used' = [used EXCEPT ![n] = TRUE]
+          /\ last' = [op |-> "use", n |-> n, out |-> "ok"]
+     ELSE \* the build fails: a configuration error; the node did not come into use
+          /\ locked' = IF UnlockOnFail THEN locked ELSE LockParents(mix, locked, n)
+          /\ UNCHANGED <<compiled, built, used>>
+          /\ last' = [op |-> "use", n |-> n, out |-> "config"]
   /\ UNCHANGED <<exists, mix, lb, own, nm>>
 
 Step ==
@@ -193,5 +215,12 @@ ParentsUntouched ==
 (* a refusal has a reason: some node deriving from n is in use *)
 RefusalJustified ==
   (last.op \in {"register", "unregister", "add_mixins"} /\ last.out = "refused") =>
-     \E k \in Nodes : compiled[k] /\ last.n \in Anc(k)
+     \E k \in Nodes : used[k] /\ last.n \in Anc(k)
+
+(* C18 at the level of the graph: a lock has a reason - some node deriving from p did come into use.  In particular  *)
+(* a build that failed locks nothing, so the offending method can still be removed from the parent it sits on.       *)
+LockJustified == \A p \in Nodes : locked[p] => \E k \in Nodes : used[k] /\ p \in Anc(k)
+
+(* a node reported as built dispatches over an overlay that can be built *)
+BuiltIsBuildable == \A n \in Nodes : compiled[n] => Buildable(built[n])
 =============================================================================
